@@ -373,18 +373,32 @@ type zipLeaf struct {
 func zipWorlds(c *aeCtx, root *ssa.Function) (leaves []zipLeaf, fn *ssa.Function, seq string, oof string) {
 	c.queryPair(root, nil, nil)
 	var lp *loop
+	var ids []string
 	for f := range c.p.AllFns {
 		if !c.p.IsRepoFn(f) || f.Blocks == nil {
 			continue
 		}
 		for _, l := range c.loopsOf(f) {
 			if s, ok := c.lsum[loopID(f, l)]; ok && s.ok {
-				fn, lp = f, l
+				ids = append(ids, loopID(f, l))
+				if lp == nil || loopID(f, l) < loopID(fn, lp) {
+					fn, lp = f, l
+				}
 			}
 		}
 	}
 	if lp == nil {
 		return nil, nil, "", "no summarised position-wise loop"
+	}
+	if len(ids) > 1 {
+		// two position-wise loops (a fast path next to the general comparison): the table of one of them
+		// is not the table of the comparator
+		sort.Strings(ids)
+		var short []string
+		for _, id := range ids {
+			short = append(short, shortLoopID(id))
+		}
+		return nil, fn, "", fmt.Sprintf("the comparator runs %d position-wise loops (%s): which one decides depends on the operands, and the position table of one loop is not the comparator's", len(ids), strings.Join(short, ", "))
 	}
 	id := loopID(fn, lp)
 	pres := ""
